@@ -527,27 +527,37 @@ class HilbertAnalyzer(BaseAnalyzer):
         hilbert = signal.hilbert
 
         return ts.TimeSeries(data=hilbert(data),
-                             sampling_rate=sampling_rate)
+                             sampling_rate=sampling_rate,
+                             time_unit=self.input.time_unit,
+                             t0=self.input.t0)
 
     @desc.setattr_on_read
     def amplitude(self):
         return ts.TimeSeries(data=np.abs(self.analytic.data),
-                             sampling_rate=self.analytic.sampling_rate)
+                             sampling_rate=self.analytic.sampling_rate,
+                             time_unit=self.analytic.time_unit,
+                             t0=self.analytic.t0)
 
     @desc.setattr_on_read
     def phase(self):
         return ts.TimeSeries(data=np.angle(self.analytic.data),
-                             sampling_rate=self.analytic.sampling_rate)
+                             sampling_rate=self.analytic.sampling_rate,
+                             time_unit=self.analytic.time_unit,
+                             t0=self.analytic.t0)
 
     @desc.setattr_on_read
     def real(self):
         return ts.TimeSeries(data=self.analytic.data.real,
-                             sampling_rate=self.analytic.sampling_rate)
+                             sampling_rate=self.analytic.sampling_rate,
+                             time_unit=self.analytic.time_unit,
+                             t0=self.analytic.t0)
 
     @desc.setattr_on_read
     def imag(self):
         return ts.TimeSeries(data=self.analytic.data.imag,
-                             sampling_rate=self.analytic.sampling_rate)
+                             sampling_rate=self.analytic.sampling_rate,
+                             time_unit=self.analytic.time_unit,
+                             t0=self.analytic.t0)
 
 
 class MorletWaveletAnalyzer(BaseAnalyzer):
@@ -627,7 +637,8 @@ class MorletWaveletAnalyzer(BaseAnalyzer):
 
         a_signal =\
     ts.TimeSeries(data=np.zeros(self.freqs.shape + data.shape,
-                                dtype='D'), sampling_rate=sampling_rate)
+                                dtype='D'), sampling_rate=sampling_rate,
+                  time_unit=self.input.time_unit, t0=self.input.t0)
         if self.freqs.ndim == 0:
             w = self.wavelet(self.freqs, self.sd,
                              sampling_rate=sampling_rate, ns=5,
@@ -651,19 +662,27 @@ class MorletWaveletAnalyzer(BaseAnalyzer):
     @desc.setattr_on_read
     def amplitude(self):
         return ts.TimeSeries(data=np.abs(self.analytic.data),
-                             sampling_rate=self.analytic.sampling_rate)
+                             sampling_rate=self.analytic.sampling_rate,
+                             time_unit=self.analytic.time_unit,
+                             t0=self.analytic.t0)
 
     @desc.setattr_on_read
     def phase(self):
         return ts.TimeSeries(data=np.angle(self.analytic.data),
-                             sampling_rate=self.analytic.sampling_rate)
+                             sampling_rate=self.analytic.sampling_rate,
+                             time_unit=self.analytic.time_unit,
+                             t0=self.analytic.t0)
 
     @desc.setattr_on_read
     def real(self):
         return ts.TimeSeries(data=self.analytic.data.real,
-                             sampling_rate=self.analytic.sampling_rate)
+                             sampling_rate=self.analytic.sampling_rate,
+                             time_unit=self.analytic.time_unit,
+                             t0=self.analytic.t0)
 
     @desc.setattr_on_read
     def imag(self):
         return ts.TimeSeries(data=self.analytic.data.imag,
-                             sampling_rate=self.analytic.sampling_rate)
+                             sampling_rate=self.analytic.sampling_rate,
+                             time_unit=self.analytic.time_unit,
+                             t0=self.analytic.t0)
